@@ -1514,7 +1514,15 @@ class SqlRegistry:
             records = dict(records)
         if isinstance(dataId, DataCoordinate) and dataId.hasRecords():
             for element_name in dataId.dimensions.elements:
-                records[element_name] = dataId.records[element_name]
+                record = dataId.records[element_name]
+                # Keyword arguments may override values of the given data ID;
+                # a record attached to it is only reused if it still
+                # describes the values we are expanding.
+                if record is not None and any(
+                    standardized.get(k, v) != v for k, v in record.dataId.required.items()
+                ):
+                    continue
+                records[element_name] = record
         keys: dict[str, str | int] = dict(standardized.mapping)
         for element_name in standardized.dimensions.lookup_order:
             element = self.dimensions[element_name]
